@@ -141,7 +141,7 @@ def viYank (r1 o1 r2 o2 : Int) (lnmode : Bool) : M Nat := do
   let region ← liftO (lbufRegion s r1 (if lnmode then 0 else o1) r2 (if lnmode then -1 else o2))
   regPut s.ybuf region (if lnmode then 1 else 0)
   setPos r1 (if lnmode then s.ed.xoff else o1)
-  pure 0
+  pure VC_COL
 
 /-- `vi_delete` -/
 def viDelete (r1 o1 r2 o2 : Int) (lnmode : Bool) : M Nat := do
